@@ -71,7 +71,8 @@ class VLoop(asyncio.SelectorEventLoop):
             asyncio.events._set_running_loop(saved)
 
     def _due(self):
-        return bool(self._scheduled) and self._next_when() <= self._vt + self._clock_resolution
+        w = self._next_when()
+        return w is not None and w <= self._vt + self._clock_resolution
 
     def _next_when(self):
         # skip cancelled timers at the head
